@@ -1,6 +1,7 @@
 use crate::ctx::Ctx;
 
 pub mod c01;
+pub mod c02;
 pub mod c04;
 pub mod c19;
 pub mod c06;
@@ -22,6 +23,7 @@ pub mod c17;
 pub fn run(prop: &str, ctx: &mut Ctx) -> bool {
     match prop {
         "C01" => c01::run(ctx),
+        "C02" => c02::run(ctx),
         "C03" => c03::run(ctx),
         "C09" => c09::run(ctx),
         "C14" => c14::run(ctx),
